@@ -46,6 +46,7 @@ type vfPairCfg struct {
 	Wire                    bool // decode every datagram with the independent decoder (C09) and check sizes (C10)
 	EncBack                 int  // white-box: the client's FEC encoder starts this many groups before its wrap value (reachable after ~2^32 packets)
 	Dup                     int  // SetDUP(n) on both sessions (duplicate datagrams; exercises the transmit queue's buffer ownership)
+	Batch                   int  // 1 = the Linux batch read/transmit paths on a virtual batch connection, 2 = also short sendmmsg counts
 	GapAfter                int  // the client writer idles GapMs after this many writes (0 = never)
 	GapMs                   int
 }
@@ -175,6 +176,7 @@ func (c vfPairCfg) fatesOf() []int {
 // vfPairSetup builds network, listener and client (inside a vrt execution).
 func vfPairSetup(cfg vfPairCfg) *vfPair {
 	vfResetGlobals()
+	vfBatchMode, vfBatchPartial = cfg.Batch > 0, cfg.Batch > 1
 	vrt.SetPoolMode(cfg.Pool)
 	p := &vfPair{cfg: cfg, net: vfNewNet(), shrinkAt: -1}
 	if cfg.Delay > 0 {
